@@ -358,19 +358,25 @@ def gen_stmt_callbacks(loader, check, replay_on=True):
     cond_cases = [("Variable", t_) for t_ in T8] + [("Register", (True, 64)), ("CompareOp", (True, 32)), ("Cast", (False, 64)), ("HybridTmp", (True, 64))]
     for form in ("if", "if-else", "switch"):
       for ck, ct in (cond_cases if form != "switch" else cond_cases[:1]):
-        for nthen in (1, 2):
+        for nthen in (1, 2, "nested-block"):
+            if nthen == "nested-block" and (form == "switch" or (ck, ct) != cond_cases[4]):
+                continue
             inst = f"{form} cond={ck}:{tname(ct)} then-statements={nthen}"
             check.instances_declared += 1
 
             def setup(it, form=form, nthen=nthen, ck=ck, ct=ct):
                 t = tkit.mk_transformer(it)
                 c = irkit.mk_operand(it, ck, ct, "c")
-                then = [mk_effect(it, loader, "Assignment", f"t{i}") for i in range(nthen)]
+                nested = nthen == "nested-block"
+                then = [mk_effect(it, loader, "Assignment", f"t{i}") for i in range(3 if nested else nthen)]
                 els = [mk_effect(it, loader, "Assignment", "e0"), mk_effect(it, loader, "NOP", "e1")]
+                # a block whose second item is itself a block: { t0; { t1; t2; } } arrives as a nested list
+                then_item = [then[0], [then[1], then[2]]] if nested else (then if nthen > 1 else then[0])
+                els_item = [[els[0]], [els[1]]] if nested else els
                 if form == "if":
-                    items = [Token("IF", "if"), c, then if nthen > 1 else then[0]]
+                    items = [Token("IF", "if"), c, then_item]
                 elif form == "if-else":
-                    items = [Token("IF", "if"), c, then if nthen > 1 else then[0], Token("ELSE", "else"), els]
+                    items = [Token("IF", "if"), c, then_item, Token("ELSE", "else"), els_item]
                 else:
                     items = [Token("SWITCH", "switch"), c, then[0]]
                 it.ctx.mark_pre(t)
